@@ -19,6 +19,7 @@ type cliHead struct {
 	Sub    string `json:"sub"`
 	Prior  string `json:"prior"`
 	ToFile bool   `json:"toFile"`
+	Fault  string `json:"fault"`
 }
 
 var dateRe = regexp.MustCompile(`"dateCreated": "([^"]*)"`)
@@ -94,6 +95,19 @@ func implCli(h caseHead, raw []byte) map[string]any {
 	os.WriteFile(df, []byte(h.Data), 0644)
 	t0 := time.Now()
 	lib, failed := libOutput(ch.Sub, h.Profile, h.Data)
+	switch ch.Fault {
+	case "no-profile-file":
+		os.Remove(pf)
+		lib, failed = "", true
+	case "no-data-file":
+		os.Remove(df)
+		lib, failed = "", true
+	case "out-dir-missing":
+		of = filepath.Join(dir, "no-such-dir", "out.json")
+		lib, failed = "", true
+	case "no-args":
+		lib, failed = "", true
+	}
 	var prior *string
 	if ch.ToFile {
 		var p string
@@ -129,6 +143,9 @@ func implCli(h caseHead, raw []byte) map[string]any {
 		args = []string{"normalize", df}
 	case "compile":
 		args = []string{"compile", pf}
+	}
+	if ch.Fault == "no-args" {
+		args = args[:1]
 	}
 	cmd := exec.Command(bin, args...)
 	var so, se bytes.Buffer
